@@ -630,6 +630,28 @@ pub fn query<A: HC>(q: &str, t: &mut Toks) -> R<String> {
                     "take" => it.take(arg).collect(),
                     "nthnext" => { let mut it = it; let _ = it.nth(arg); it.collect() }
                     "count" => return Err(it.count()),
+                    "lastafter" | "countafter" | "foldafter" | "nthhuge" => {
+                        // drive the internal-iteration methods (last / count / for_each) of a partially consumed iterator
+                        let mut it = it;
+                        for _ in 0..arg {
+                            let _ = it.next();
+                        }
+                        match ad {
+                            "lastafter" => it.last().into_iter().collect(),
+                            "countafter" => return Err(it.count()),
+                            "foldafter" => {
+                                let mut v = vec![];
+                                it.for_each(|x| v.push(x));
+                                v
+                            }
+                            _ => {
+                                let first = it.nth(usize::MAX);
+                                let mut v: Vec<I::Item> = first.into_iter().collect();
+                                v.extend(it);
+                                v
+                            }
+                        }
+                    }
                     "hint" => {
                         // Iterator contract: size_hint bounds the number of items actually yielded, also after `arg` calls to next()
                         let mut it = it;
